@@ -1,7 +1,8 @@
 # C15: every sample lands in exactly one grid bin; grid files round-trip.
-import os, sys, json, math, re
+import glob, os, sys, json, math, re
 from fractions import Fraction as Fr
 import vcommon as V
+import gridio
 
 PROP = "coq/C15/Properties_C15.v"
 
@@ -211,7 +212,9 @@ def gen_hist(r, k):
         vars_.append(v)
     stepzero = r.random() < 0.3
     nsteps = r.randint(6, 20)
-    events = []   # (boundary?, [z values])
+    events = []   # (kind, [z values]); kind False = ordinary step, True = run boundary in the same process (the step is
+                  # re-evaluated with simulation_continuing), "r" = restart: state saved, fresh instance, state loaded, and
+                  # the step the state was written at is evaluated again (step_relative 0, step_absolute > 0)
     for s in range(nsteps):
         zs = []
         for v in vars_:
@@ -227,12 +230,15 @@ def gen_hist(r, k):
                 z += r.randint(-3, 3) * v["P"]
             zs.append(z)
         boundary = (s > 0) and r.random() < 0.15
+        if (s > 0) and not boundary and r.random() < 0.12:
+            boundary = "r"
+            zs = list(events[-1][1])   # a restart re-evaluates the configuration the state was written at
         events.append((boundary, zs))
     return {"vars": vars_, "stepzero": stepzero, "events": events, "id": k}
 
 
 def hist_scenario(c, statefile):
-    L = ["natoms %d" % len(c["vars"]), "new", "config EOF"]
+    L = ["natoms %d" % len(c["vars"]), "prefix hout%d" % c["id"], "new", "config EOF"]
     for d, v in enumerate(c["vars"]):
         L += ["colvar {", "  name v%d" % d]
         # boundaries on the colvar (always; a custom grid block overrides them)
@@ -248,19 +254,27 @@ def hist_scenario(c, statefile):
     L += ["histogram {", "  name h", "  colvars " + " ".join("v%d" % d for d in range(len(c["vars"])))]
     if c["stepzero"]:
         L += ["  stepZeroData on"]
+    L += ["  outputFileDX hout%d.h.dx" % c["id"]]
     if any(v["custom"] for v in c["vars"]):
         L += ["  histogramGrid {",
               "    lowerBoundary " + " ".join("%r" % v["lower"] for v in c["vars"]),
               "    upperBoundary " + " ".join("%r" % v["upper"] for v in c["vars"]),
               "    width " + " ".join("%r" % v["w"] for v in c["vars"]), "  }"]
     L += ["}", "EOF", "show atomf 0 energy 0 bias 0"]
+    cfg = L[L.index("config EOF"):L.index("EOF") + 1]
+    nrest = 0
     for boundary, zs in c["events"]:
         for d, z in enumerate(zs):
             L.append("pos %d 0 0 %s" % (d + 1, V.hexf(z)))
-        if boundary:
+        if boundary == "r":
+            nrest += 1
+            rf = "%s.r%d" % (statefile, nrest)
+            L += ["save text %s" % rf, "fresh"] + cfg + ["load %s" % rf]
+        elif boundary:
             L.append("runboundary")
         L.append("step")
     L.append("save text %s" % statefile)
+    L.append("postrun")          # writes the histogram's multicolumn and OpenDX files
     return "\n".join(L) + "\n"
 
 
@@ -276,9 +290,11 @@ def hist_model_case(c):
     for boundary, zs in c["events"]:
         if first:
             first = False
+        elif boundary == "r":
+            rel = 0
         elif not boundary:
             rel += 1
-        parts += [str(rel), "1" if boundary else "0", "1"]
+        parts += [str(rel), "1" if boundary is True else "0", "1"]
         parts += ["W %d %s %s %s" % (1 if v["periodic"] else 0, V.hexf(v.get("c", 0.0)), V.hexf(v.get("P", 1.0)), V.hexf(z))
                   for v, z in zip(c["vars"], zs)]
         parts += [V.hexf(1.0)]
@@ -297,9 +313,11 @@ def hist_oracle(c):
     for boundary, zs in c["events"]:
         if first:
             first = False
+        elif boundary == "r":
+            rel = 0
         elif not boundary:
             rel += 1
-        elig = (rel > 0 and not boundary) or c["stepzero"]
+        elig = (rel > 0 and boundary is not True) or c["stepzero"]
         if not elig:
             continue
         a = 0
@@ -327,6 +345,297 @@ def parse_hist_state(path, name="h"):
     return [float(t) for t in m.group(1).split()]
 
 
+
+def check_hist_files(run, c, d, exp, model, scenario):
+    """the histogram's own output files (written by write_output_files at the end of the run): the multicolumn file must be
+    the model's write_multicol of the expected grid, and the OpenDX header must describe the grid"""
+    vs = c["vars"]
+    nd = len(vs)
+    dat = os.path.join(d, "hout%d.h.dat" % c["id"])
+    dx = os.path.join(d, "hout%d.h.dx" % c["id"])
+    if not c["events"] or not any(True for _ in exp):
+        return
+    has_data = any(e > 0 for e in exp)
+    if not has_data:
+        return            # nothing is written for an empty histogram
+    g = {"mult": 1, "nd": nd, "nx": [v["nx"] for v in vs], "lower": [v["lower"] for v in vs], "upper": [v["upper"] for v in vs],
+         "width": [v["w"] for v in vs], "per": [1 if v["periodic"] else 0 for v in vs], "data": [float(e) for e in exp]}
+    if not os.path.exists(dat):
+        run.mismatch("hist:file:multicol", {"scenario": scenario}, "no file " + os.path.basename(dat), "written")
+        return
+    text = open(dat).read()
+    rc, mo, e = V.run_lines(model, ["WRITE multicol " + gridio.spec(g)])
+    diff = gridio.toks_differ(mo[0][2:].split(), gridio.lex(text), 0.0) if mo and mo[0].startswith("T ") else "model: %s" % mo[:1]
+    run.count("histfile%d" % c["id"], True)
+    run.dist("hist:file:multicol")
+    if diff:
+        # oracle on the implementation alone: rows = bin centres + exact counts, in row-major order
+        rows = [l.split() for l in text.split("\n") if l.strip() and not l.startswith("#")]
+        import itertools
+        want = []
+        for a, ix in enumerate(itertools.product(*[range(v["nx"]) for v in vs])):
+            want.append([v["lower"] + v["w"] * (0.5 + i) for v, i in zip(vs, ix)] + [float(exp[a])])
+        got = [[float(x) for x in r_] for r_ in rows]
+        if got != want:
+            run.violation("hist:file:multicol", "the histogram's multicolumn file does not list the bins (centres, counts) of the exact histogram in address order: %s vs %s" % (got[:6], want[:6]),
+                          {"kind": "hist", "scenario": scenario, "file": text, "expected_rows": want})
+        run.mismatch("hist:file:multicol", {"scenario": scenario}, text[:500], (mo[0][:500] if mo else "") + " [" + str(diff) + "]")
+    if os.path.exists(dx):
+        h = gridio.dx_header(open(dx).read())
+        run.dist("hist:file:dx")
+        # the file is written with the stream's default 6 significant digits: dyadic values of this generator print exactly
+        origin = [v["lower"] + 0.5 * v["w"] for v in vs]
+        ok = (h["counts"] == g["nx"] and h["origin"] is not None and len(h["origin"]) == nd and
+              all(gridio.close(a, b, 1e-5) for a, b in zip(h["origin"], origin)) and len(h["delta"]) == nd and
+              all(gridio.close(h["delta"][i][j], vs[i]["w"] if i == j else 0.0, 1e-5) for i in range(nd) for j in range(nd)))
+        if not ok:
+            run.violation("hist:file:dx-header", "the OpenDX header %s does not describe the histogram's grid: sizes %s, first bin centres %s, widths %s" % (
+                h, g["nx"], origin, g["width"]), {"kind": "hist", "scenario": scenario, "file": open(dx).read()[:2000]})
+    else:
+        run.mismatch("hist:file:dx", {"scenario": scenario}, "no file " + os.path.basename(dx), "written")
+
+
+
+# ---------------------------------------------------------------- a real save/load of a gridded bias
+def meta_state_scenario(r, k):
+    """metadynamics with grids on 1-2 exact variables with non-dyadic boundaries: run, save, fresh instance, load, and let both
+    instances write their PMF (multicolumn form, full precision): the grid of the resumed instance must be the configured one"""
+    nd = r.choice([1, 1, 2])
+    vs = []
+    for d in range(nd):
+        lo = r.choice(gridio.NONDYADIC) * r.choice([1, 1, -1])
+        w = r.choice([0.5, 0.3, 0.25, 0.7])
+        n = r.randint(4, 8)
+        vs.append({"lower": lo, "w": w, "nx": n, "upper": lo + n * w})
+    cfg = ["config END"]
+    for d, v in enumerate(vs):
+        cfg += ["colvar {", "  name v%d" % d, "  lowerBoundary %r" % v["lower"], "  upperBoundary %r" % v["upper"], "  width %r" % v["w"],
+                "  distanceZ {", "    main { atomNumbers %d }" % (d + 1), "    ref { dummyAtom (0,0,0) }", "    axis (0,0,1)", "  }", "}"]
+    cfg += ["metadynamics {", "  name m", "  colvars " + " ".join("v%d" % d for d in range(nd)), "  hillWeight 0.25", "  hillWidth 1.0",
+            "  newHillFrequency 1", "  useGrids on", "  writeFreeEnergyFile on", "}", "END"]
+    L = ["natoms %d" % nd, "prefix metaA%d" % k, "new"] + cfg + ["show atomf 0 energy 0 bias 0 cv 0"]
+    for s_ in range(r.randint(3, 5)):
+        for d, v in enumerate(vs):
+            L.append("pos %d 0 0 %r" % (d + 1, v["lower"] + v["w"] * r.uniform(1.5, v["nx"] - 1.5)))
+        L.append("step")
+    L += ["save text meta%d.state" % k, "postrun", "prefix metaB%d" % k, "fresh"] + cfg + ["load meta%d.state" % k, "postrun"]
+    return vs, "\n".join(L) + "\n"
+
+
+def multicol_header(text):
+    hdr = [l.split() for l in text.split("\n") if l.startswith("#")]
+    if not hdr or len(hdr[0]) < 2:
+        return None
+    return [(float(h[1]), float(h[2]), int(h[3]), int(h[4])) for h in hdr[1:]]
+
+
+def check_meta_states(run, r, vsim, d, n):
+    for k in range(n):
+        vs, scn = meta_state_scenario(r, k)
+        sc = os.path.join(d, "meta%d.scn" % k)
+        open(sc, "w").write(scn)
+        rc, o, e = V.sh([vsim, sc], cwd=d, timeout=120)
+        fa, fb = os.path.join(d, "metaA%d.pmf" % k), os.path.join(d, "metaB%d.pmf" % k)
+        run.count("metastate%d" % k, True)
+        run.dist("state:meta:nd=%d" % len(vs))
+        if o.count("CONFIG err=ok") != 2 or "LOAD err=ok" not in o or not os.path.exists(fa) or not os.path.exists(fb):
+            run.mismatch("state:meta:run", {"scenario": scn}, o[-400:], "two instances configured, state loaded, two PMF files")
+            continue
+        ha, hb = multicol_header(open(fa).read()), multicol_header(open(fb).read())
+        want = [(v["lower"], v["w"], v["nx"], 0) for v in vs]
+        def same(h):
+            return h is not None and len(h) == len(want) and all(
+                gridio.close(a[0], b[0], 1e-12) and gridio.close(a[1], b[1], 1e-12) and a[2] == b[2] and a[3] == b[3] for a, b in zip(h, want))
+        if not same(ha):
+            run.mismatch("state:meta:config", {"scenario": scn}, ha, want)
+            continue
+        if not same(hb):
+            run.violation("io:roundtrip:state:metadynamics", "after saving and loading the state of a metadynamics bias the energy grid has lower boundary/width/size %s; the grid that was saved (and is configured) has %s" % (
+                [h_[:3] for h_ in hb] if hb else None, [w_[:3] for w_ in want]), {"kind": "hist", "scenario": scn})
+        else:
+            # same geometry: the data must be the same as well (the PMF of the resumed instance = that of the first)
+            da = [l.split() for l in open(fa).read().split("\n") if l.strip() and not l.startswith("#")]
+            db = [l.split() for l in open(fb).read().split("\n") if l.strip() and not l.startswith("#")]
+            if len(da) != len(db) or any(not gridio.close(float(x), float(y), 1e-9) for ra, rb in zip(da, db) for x, y in zip(ra, rb)):
+                run.violation("io:roundtrip:state:metadynamics-data", "the PMF written after loading the saved state differs from the PMF written before saving",
+                              {"kind": "hist", "scenario": scn, "before": da[:20], "after": db[:20]})
+        for f in glob.glob(os.path.join(d, "meta?%d.*" % k)) + glob.glob(os.path.join(d, "meta%d.*" % k)):
+            os.remove(f)
+
+
+VECTOR_SCN = """natoms 2
+new
+config END
+colvar {
+  name v0
+  cartesian {
+    atoms { atomNumbers 1 2 }
+  }
+}
+histogram {
+  name h
+  colvars v0
+  gatherVectorColvars on
+  weights 1 2 3 4 5 6
+  histogramGrid {
+    lowerBoundary 0.0
+    upperBoundary 4.0
+    width 0.5
+  }
+}
+END
+show atomf 0 energy 0 bias 0 cv 0
+pos 1 0.25 1.25 2.25
+pos 2 0.75 1.75 3.75
+step
+step
+step
+save text vec.state
+"""
+
+
+def check_vector_histogram(run, vsim, d):
+    """vector variables gathered into one histogram (gatherVectorColvars, weights): the documented configuration"""
+    sc = os.path.join(d, "vec.scn")
+    open(sc, "w").write(VECTOR_SCN)
+    rc, o, e = V.sh([vsim, sc], cwd=d, timeout=120)
+    run.count("vector-histogram", True)
+    run.dist("hist:vector")
+    sf = os.path.join(d, "vec.state")
+    if "CONFIG err=ok ncv=1 nbias=1" not in o:
+        run.violation("hist:gatherVectorColvars-rejected", "a histogram with gatherVectorColvars on a cartesian (vector) variable and a histogramGrid block is refused at initialisation (%s): vector variables cannot be gathered into a histogram" % (
+            o.split("CONFIG")[1].split("\n")[0].strip() if "CONFIG" in o else o[-100:]), {"kind": "hist", "scenario": VECTOR_SCN})
+        return
+    # the configuration is accepted: 6 components per step with weights 1..6; steps 1 and 2 are eligible (3 steps: 0,1,2)
+    got = parse_hist_state(sf)
+    vals = [0.25, 1.25, 2.25, 0.75, 1.75, 3.75]
+    exp = [0.0] * 8
+    for x, w_ in zip(vals, [1, 2, 3, 4, 5, 6]):
+        exp[int(x // 0.5)] += 2.0 * w_
+    if got != exp:
+        run.violation("hist:vector:counts", "gathered vector histogram %s differs from the weighted histogram of the components at the eligible steps %s" % (got, exp),
+                      {"kind": "hist", "scenario": VECTOR_SCN, "expected": exp, "got": got})
+    return True
+
+
+def gen_vec_hist(r, k):
+    nvar = r.choice([1, 1, 2])
+    m = r.choice([1, 2])                      # atoms per variable: 3m components
+    size = 3 * m
+    vs = []
+    for d in range(nvar):
+        w = r.choice([1.0, 0.5, 0.25, 2.0])
+        vs.append({"lower": V.dyadic(r, -3, 3, bits=2), "w": w, "nx": r.randint(1, 6)})
+    for v in vs:
+        v["upper"] = v["lower"] + v["w"] * v["nx"]
+    wmode = r.random()
+    weights = None if wmode < 0.25 else [V.dyadic(r, 0, 4, bits=3) for _ in range(size)]
+    stepzero = r.random() < 0.3
+    events = []
+    for s_ in range(r.randint(4, 10)):
+        coords = []
+        for v in vs:
+            cs = []
+            for _ in range(size):
+                q = r.random()
+                if q < 0.35:
+                    cs.append(v["lower"] + r.randint(-2, v["nx"] + 2) * v["w"])
+                elif q < 0.85:
+                    cs.append(v["lower"] + r.randint(0, v["nx"] * 8 - 1) * v["w"] / 8 + v["w"] / 16)
+                else:
+                    cs.append(v["lower"] + r.choice([-1, 1]) * (v["w"] * v["nx"] + r.randint(1, 40) * v["w"] / 8))
+            coords.append(cs)
+        events.append(((s_ > 0) and r.random() < 0.2, coords))
+    return {"id": k, "vars": vs, "m": m, "weights": weights, "stepzero": stepzero, "events": events}
+
+
+def vec_scenario(c, statefile):
+    nvar, m = len(c["vars"]), c["m"]
+    L = ["natoms %d" % (nvar * m), "new", "config END"]
+    for d in range(nvar):
+        L += ["colvar {", "  name v%d" % d, "  cartesian {",
+              "    atoms { atomNumbers " + " ".join(str(d * m + a + 1) for a in range(m)) + " }", "  }", "}"]
+    L += ["histogram {", "  name h", "  colvars " + " ".join("v%d" % d for d in range(nvar)), "  gatherVectorColvars on"]
+    if c["weights"] is not None:
+        L += ["  weights " + " ".join("%r" % x for x in c["weights"])]
+    if c["stepzero"]:
+        L += ["  stepZeroData on"]
+    L += ["  histogramGrid {", "    lowerBoundary " + " ".join("%r" % v["lower"] for v in c["vars"]),
+          "    upperBoundary " + " ".join("%r" % v["upper"] for v in c["vars"]),
+          "    width " + " ".join("%r" % v["w"] for v in c["vars"]), "  }", "}", "END", "show atomf 0 energy 0 bias 0 cv 0"]
+    for boundary, coords in c["events"]:
+        for d in range(nvar):
+            for a in range(m):
+                x, y, z = coords[d][3 * a:3 * a + 3]
+                L.append("pos %d %s %s %s" % (d * m + a + 1, V.hexf(x), V.hexf(y), V.hexf(z)))
+        if boundary:
+            L.append("runboundary")
+        L.append("step")
+    L.append("save text %s" % statefile)
+    return "\n".join(L) + "\n"
+
+
+def vec_expected(c):
+    vs = c["vars"]
+    size = 3 * c["m"]
+    wts = c["weights"] if c["weights"] is not None else [1.0] * size
+    nt = 1
+    for v in vs:
+        nt *= v["nx"]
+    counts = [Fr(0)] * nt
+    rel, first = 0, True
+    mparts = ["HIST", "1", "1" if c["stepzero"] else "0", str(len(vs))] + [V.hexf(v["lower"]) for v in vs] + \
+             [V.hexf(v["w"]) for v in vs] + [str(v["nx"]) for v in vs] + [str(len(c["events"]))]
+    for boundary, coords in c["events"]:
+        if first:
+            first = False
+        elif not boundary:
+            rel += 1
+        mparts += [str(rel), "1" if boundary else "0", str(size)]
+        for iv in range(size):
+            mparts += [V.hexf(coords[d][iv]) for d in range(len(vs))] + [V.hexf(wts[iv])]
+        if not ((rel > 0 and not boundary) or c["stepzero"]):
+            continue
+        for iv in range(size):
+            a, ok = 0, True
+            for d, v in enumerate(vs):
+                i = floor_fr((fr(coords[d][iv]) - fr(v["lower"])) / fr(v["w"]))
+                if not (0 <= i < v["nx"]):
+                    ok = False
+                    break
+                a = a * v["nx"] + i
+            if ok:
+                counts[a] += fr(wts[iv])
+    return [float(x) for x in counts], " ".join(mparts)
+
+
+def check_vector_scenarios(run, r, vsim, model, d, n):
+    cs = [gen_vec_hist(r, k) for k in range(n)]
+    em = [vec_expected(c) for c in cs]
+    rc, mout, e = V.run_lines(model, [m for _, m in em])
+    for k, (c, (exp, mline)) in enumerate(zip(cs, em)):
+        sf, sc = os.path.join(d, "vh%d.state" % k), os.path.join(d, "vh%d.scn" % k)
+        scn = vec_scenario(c, sf)
+        open(sc, "w").write(scn)
+        rcv, o, ev = V.sh([vsim, sc], cwd=d, timeout=120)
+        run.count("vechist%d" % k, sum(exp) > 0)
+        run.dist("hist:vector:nvar=%d" % len(c["vars"]))
+        run.dist("hist:vector:weights=" + ("default" if c["weights"] is None else "given"))
+        if "CONFIG err=ok" not in o or not os.path.exists(sf):
+            run.mismatch("hist:vector:config", {"scenario": scn}, o[-300:], "accepted")
+            continue
+        got = parse_hist_state(sf)
+        if got != exp:
+            run.violation("hist:vector:counts", "gathered vector histogram %s differs from the weighted histogram %s of the components at the eligible steps (weights %s)" % (
+                got, exp, c["weights"]), {"kind": "hist", "scenario": scn, "expected": exp, "got": got})
+        mo = [float.fromhex(t) for t in mout[k].split()] if k < len(mout) else None
+        if mo != got:
+            run.mismatch("hist:vector:counts", {"scenario": scn, "model_case": mline}, got, mo)
+        for f in (sf, sc):
+            if os.path.exists(f):
+                os.remove(f)
+
+
 def setup():
     V.extract_model("C15", "coq/C15/Extract_C15.v", "props/C15/driver.ml", ["ocaml/fops.ml"])
     V.build_prog("c15unit", ["props/C15/unit.cpp"])
@@ -341,7 +650,7 @@ def check(run):
                        "non-trivial = BIN on an edge or negative bin, ADDR/INCR with >=2 dims, RT, or a histogram with >=2 counted and >=1 rejected sample")
     run.assumptions += [
         "theorems are about the R instance of the model; the tie runs the float instance on dyadic inputs for which +,-,*,/ by the generated widths and floor are exact",
-        "vector-variable histograms (gatherVectorColvars) are rejected at initialisation by this build, so that branch of the model is not exercised by the tie",
+        "vector-variable histograms (gatherVectorColvars) are tied only on a tree where they can be configured (fix-C15); on a tree that rejects them at initialisation the finding is reported under its own signature and that branch of the model is not exercised",
     ]
     st = V.standard_start(run, PROP, "coq/C15/Extract_C15.v", "props/C15/driver.ml",
                           {"c15unit": ["props/C15/unit.cpp"], "vsim": ["harness/vsim_main.cpp"]})
@@ -390,6 +699,9 @@ def check(run):
                 run.mismatch("unit:" + kind, c, io, mo)
     run.sample({"unit_case": cases[-1], "impl": impl[-1]})
 
+    # grid files: writers/readers of the three forms (+ OpenDX header), model vs real code, round-trip oracle
+    gridio.run_io(run, V.rng("C15io"), unit, model, 240 if quick else 6000)
+
     # histogram scenarios through the engine simulator
     d = V.scratch("C15")
     n = 40 if quick else 600
@@ -413,7 +725,8 @@ def check(run):
         run.count("hist%d" % k, counted >= 2 and rejected >= 1)
         run.dist("hist:nd=%d" % len(c["vars"]))
         run.dist("hist:periodic_vars", sum(1 for v in c["vars"] if v["periodic"]))
-        run.dist("hist:boundaries", sum(1 for b, _ in c["events"] if b))
+        run.dist("hist:boundaries", sum(1 for b, _ in c["events"] if b is True))
+        run.dist("hist:restarts", sum(1 for b, _ in c["events"] if b == "r"))
         if got is None or [float(x) for x in exp] != got:
             run.violation("hist:counts", "histogram counts %s differ from the exact histogram %s of the imposed values" % (got, exp),
                           {"kind": "hist", "scenario": open(sc).read(), "expected": exp, "got": got})
@@ -422,9 +735,13 @@ def check(run):
             run.mismatch("hist:counts", {"scenario": open(sc).read(), "model_case": mlines[k]}, got, mo)
         if k == 0:
             run.sample({"histogram_scenario": open(sc).read().split("\n")[:40], "counts": got})
-        for f in (sf, sc):
+        check_hist_files(run, c, d, exp, model, open(sc).read())
+        for f in [sf, sc] + glob.glob(sf + ".r*") + glob.glob(os.path.join(d, "hout%d.*" % k)):
             if os.path.exists(f):
                 os.remove(f)
+    check_meta_states(run, V.rng("C15meta"), vsim, d, 6 if quick else 60)
+    if check_vector_histogram(run, vsim, d):
+        check_vector_scenarios(run, V.rng("C15vec"), vsim, model, d, 20 if quick else 300)
     run.cov["correspondence"].update({"unit_cases": len(cases), "hist_scenarios": len(hcases)})
 
 
@@ -432,11 +749,27 @@ def replay(path):
     j = json.load(open(path))
     rp = j["replay"]
     print(json.dumps(j, indent=1)[:3000])
-    if rp.get("kind") == "unit":
+    if rp.get("kind") in ("unit", "io"):
         unit = V.build_prog("c15unit", ["props/C15/unit.cpp"])
         model = V.extract_model("C15", "coq/C15/Extract_C15.v", "props/C15/driver.ml", ["ocaml/fops.ml"])
-        print("impl :", V.run_lines(unit, [rp["case"]])[1])
-        print("model:", V.run_lines(model, [rp["case"]])[1])
+        for key in ("case", "cmd", "write", "read"):
+            c = rp.get(key)
+            if not c:
+                continue
+            out = V.run_lines(unit, [c])[1]
+            print("impl  %s: %s" % (key, [o.replace("|", "\n") if o.startswith("T ") else o for o in out]))
+            w = c.split()
+            if w[0] in ("GW", "SW"):
+                m = "WRITE " + ("state " + " ".join(w[1:]) if w[0] == "SW" else " ".join(w[1:]))
+                print("model %s: %s" % (key, V.run_lines(model, [m])[1]))
+            elif w[0] in ("GR", "SR", "GF") and " TEXT " in c:
+                head, text = c.split(" TEXT ", 1)
+                hw = head.split()
+                m = "READ " + ("state " + " ".join(hw[1:]) if hw[0] == "SR" else ("file " + " ".join(hw[1:]) if hw[0] == "GF" else " ".join(hw[1:])))
+                m += " TOKS " + " ".join(gridio.lex(text.replace("|", "\n")))
+                print("model %s: %s" % (key, V.run_lines(model, [m])[1]))
+            elif w[0] not in ("GW", "SW", "GR", "SR", "GF"):
+                print("model %s: %s" % (key, V.run_lines(model, [c])[1]))
     elif rp.get("kind") == "hist":
         vsim = V.build_prog("vsim", ["harness/vsim_main.cpp"])
         d = V.scratch("C15r")
